@@ -29,15 +29,15 @@ from gverif.props import c07_bind as B
 
 # The case spaces (mirror of QuickJobs / ThoroughJobs / SimJobs in spec/C3.tla; used to assert that TLC
 # emitted exactly the whole space): name -> (n, maxb, domain, number of member names, number of layouts)
-ONE, SPLIT, SPELL = ["one"], ["from", "as", "attr", "chain", "chain2"], ["sub", "nest"]
+ONE, SPLIT, SPELL, DEEP = ["one"], ["from", "as", "attr", "chain", "chain2"], ["sub", "nest"], ["nest2", "nest2d"]
 JOBS = {
     "quick": {"dag5": (5, 3, "dag", 0, ONE), "dag4x": (4, 3, "dag", 0, ONE), "dag4": (4, 3, "dag", 1, ONE), "dag3": (3, 3, "dag", 2, ONE), "free3": (3, 3, "free", 0, ONE),
               "free3m": (3, 2, "free", 1, ONE), "self2": (2, 3, "self", 1, ONE), "split4": (4, 3, "dag", 0, SPLIT), "split3": (3, 3, "dag", 1, SPLIT),
               "splitfree3": (3, 2, "free", 0, SPLIT), "spell4": (4, 3, "dag", 0, SPELL), "spell3": (3, 3, "dag", 1, SPELL),
-              "del3": (3, 3, "dag", 1, ONE, True), "ext3": (3, 3, "ext", 1, ONE), "ext4": (4, 2, "ext", 0, ONE), "imp3": (3, 3, "dag", 1, ONE, False, True)},
+              "del3": (3, 3, "dag", 1, ONE, True), "ext3": (3, 3, "ext", 1, ONE), "ext4": (4, 2, "ext", 0, ONE), "imp3": (3, 3, "dag", 1, ONE, False, True), "deep3": (3, 3, "dag", 1, DEEP)},
     "thorough": {"dag5": (5, 3, "dag", 1, ONE), "dag4": (4, 3, "dag", 2, ONE), "free3": (3, 3, "free", 1, ONE), "free4": (4, 2, "free", 0, ONE),
                  "self3": (3, 2, "self", 1, ONE), "split4": (4, 3, "dag", 1, SPLIT), "splitfree3": (3, 2, "free", 1, SPLIT),
-                 "spell4": (4, 3, "dag", 1, SPELL), "del4": (4, 3, "dag", 1, ONE, True), "ext4": (4, 3, "ext", 1, ONE), "imp4": (4, 3, "dag", 1, ONE, False, True), "imp3": (3, 3, "dag", 2, ONE, False, True)},
+                 "spell4": (4, 3, "dag", 1, SPELL), "del4": (4, 3, "dag", 1, ONE, True), "ext4": (4, 3, "ext", 0, ONE), "ext3": (3, 3, "ext", 1, ONE), "imp4": (4, 3, "dag", 1, ONE, False, True), "imp3": (3, 3, "dag", 2, ONE, False, True), "deep4": (4, 3, "dag", 1, DEEP)},
 }
 SIM = (6, 3, "dag", 1, ONE)
 
@@ -291,7 +291,7 @@ def _run_tier(run: Run, tier: str, jobs: dict, pool, rnd):
         insp: list = []
         with ThreadPoolExecutor(max_workers=2) as tp:
             fsim = tp.submit(tlc.run, "C3", "C3_jobs.cfg", workers=2, constants={"JOBS": "SimJobs"}, simulate="num=6000", depth=4000, seed=SEED + 7, timeout=3000, heap="6g")
-            order = ["dag5", "dag4", "free3", "free4", "self3", "split4", "splitfree3", "spell4", "del4", "ext4", "imp4", "imp3"]
+            order = ["dag5", "dag4", "free3", "free4", "self3", "split4", "splitfree3", "spell4", "del4", "ext4", "ext3", "imp4", "imp3", "deep4"]
             nxt = tp.submit(tlc_job, "T_" + order[0], 8)
             for i, name in enumerate(order):
                 res = nxt.result()
